@@ -240,6 +240,35 @@ class C01(Prop):
                 self.check(ctx, {'formula': f, 'data': lang.gen_trace(rng, names, n), 'kind': 'dt'})
             done += 1
         ctx.count('enumerated-operator-interval-formulas', done)
+        # sizes that small examples do not reach: deep chains of unary operators (12..80 levels) and long traces
+        # (1100 / 2100 samples) under small windows
+        N, V, C = lang.N, lang.V, lang.C
+        un1 = [('once', (0, 1)), ('always', (0, 1)), ('not', None), ('prev', None), ('next', None), ('eventually', (1, 1)),
+               ('historically', (0, 2)), ('once', None), ('s_prev', None), ('always', (1, 2)), ('rise', None), ('fall', None)]
+        for d in ((12, 40) if ctx.tier == 'quick' else (12, 20, 40, 80)):
+            if ctx.out_of_time() or ctx.shard != 0 and ctx.tier == 'quick':
+                break
+            for rep in range(2):
+                f = rng.choice([px, x, N('leq', N('abs', N('sub', x, y)), C(2.0))])
+                for _ in range(d):
+                    o, iv = rng.choice(un1)
+                    f = N(o, f, ivl=iv) if iv is not None else N(o, f)
+                    if rng.random() < 0.1:
+                        f = N(rng.choice(['and', 'or']), f, py)
+                self.check(ctx, {'formula': f, 'data': dict((k, lang.gen_values(rng, rng.choice([30, 60]), 'small'))
+                                                            for k in lang.variables(f)), 'kind': 'dt'})
+                ctx.count('class:deep-chains')
+        for n in ((1100,) if ctx.tier == 'quick' else (1100, 2100)):
+            if ctx.out_of_time():
+                break
+            a = rng.randint(0, 2)
+            f = rng.choice([N('always', N('implies', px, N('eventually', py, ivl=(a, a + 3))), ivl=(0, 4)),
+                            N('since', N('once', px, ivl=(a, a + 2)), py),
+                            N('and', N('historically', N('geq', N('sub', x, y), C(-3.0)), ivl=(a, a + 4)), N('next', N('rise', px))),
+                            N('until', px, N('or', py, N('prev', px)), ivl=(a, a + 3))])
+            self.check(ctx, {'formula': f, 'data': dict((k, lang.gen_values(rng, n, rng.choice(['small', 'steps', 'tiny'])))
+                                                        for k in lang.variables(f)), 'kind': 'dt'})
+            ctx.count('class:long-traces-1100+')
 
 
 PROP = C01()
